@@ -1316,6 +1316,7 @@ func (c *Client) AckResult(res ...*OpResult) error {
 			toACK[r.OperationID] = true
 		}
 	}
+	verifGate("ack.install")
 	c.qs.resultq = nrq
 
 	var errs errlist.List
